@@ -35,11 +35,24 @@
 use std::isize;
 use std::marker::PhantomData;
 use std::ops::Deref;
+#[cfg(not(sighook_verif))]
 use std::sync::atomic::{self, AtomicPtr, AtomicUsize, Ordering};
+#[cfg(sighook_verif)]
+use std::sync::atomic::Ordering;
+#[cfg(sighook_verif)]
+use std::sync::PoisonError;
+#[cfg(not(sighook_verif))]
 use std::sync::{Mutex, MutexGuard, PoisonError};
+#[cfg(not(sighook_verif))]
 use std::thread;
 
+#[cfg(sighook_verif)]
+use verif::shim::{self as atomic, self as thread, AtomicPtr, AtomicUsize, Mutex, MutexGuard};
+
 use libc;
+
+#[cfg(sighook_verif)]
+use verif;
 
 const YIELD_EVERY: usize = 16;
 const MAX_GUARDS: usize = (isize::MAX) as usize;
@@ -60,6 +73,8 @@ impl<'a, T> Drop for ReadGuard<'a, T> {
     fn drop(&mut self) {
         // We effectively unlock; Release would be enough.
         self.lock.fetch_sub(1, Ordering::SeqCst);
+        #[cfg(sighook_verif)]
+        verif::event("hl_close", self.data as *const T as usize, 0);
     }
 }
 
@@ -73,17 +88,25 @@ impl<'a, T> WriteGuard<'a, T> {
     pub(crate) fn store(&mut self, val: T) {
         // Move to the heap and convert to raw pointer for AtomicPtr.
         let new = Box::into_raw(Box::new(val));
+        #[cfg(sighook_verif)]
+        verif::event("hl_alloc", new as usize, self.lock.layout()[0]);
 
         self.data = unsafe { &*new };
 
         // We can just put the new value in here safely, we worry only about dropping the old one.
         // Release might (?) be enough, to "upload" the data.
         let old = self.lock.data.swap(new, Ordering::SeqCst);
+        #[cfg(sighook_verif)]
+        verif::event("hl_publish", new as usize, self.lock.layout()[0]);
 
         // Now we make sure there's no reader having the old data.
         self.lock.write_barrier();
 
+        #[cfg(sighook_verif)]
+        verif::event("hl_free", old as usize, self.lock.layout()[0]);
         drop(unsafe { Box::from_raw(old) });
+        #[cfg(sighook_verif)]
+        verif::event("hl_freed", old as usize, self.lock.layout()[0]);
     }
 }
 
@@ -113,6 +136,8 @@ impl<T> HalfLock<T> {
         // Move to the heap so we can safely point there. Then convert to raw pointer as AtomicPtr
         // operates on raw pointers. The AtomicPtr effectively acts like Box for us semantically.
         let ptr = Box::into_raw(Box::new(data));
+        #[cfg(sighook_verif)]
+        verif::event("hl_init", ptr as usize, 0);
         Self {
             _t: PhantomData,
             data: AtomicPtr::new(ptr),
@@ -148,6 +173,8 @@ impl<T> HalfLock<T> {
         // Acquire should be enough; we need to "download" the data, paired with the swap on the
         // same pointer.
         let data = self.data.load(Ordering::SeqCst);
+        #[cfg(sighook_verif)]
+        verif::event("hl_open", data as usize, self.layout()[0]);
         // Safe:
         // * It did point to valid data when put in.
         // * Protected by lock, so still valid.
@@ -216,6 +243,20 @@ impl<T> HalfLock<T> {
     }
 }
 
+#[cfg(sighook_verif)]
+impl<T> HalfLock<T> {
+    /// Addresses of (data, generation, lock[0], lock[1], write_mutex).
+    pub(crate) fn layout(&self) -> [usize; 5] {
+        [
+            &self.data as *const _ as usize,
+            &self.generation as *const _ as usize,
+            &self.lock[0] as *const _ as usize,
+            &self.lock[1] as *const _ as usize,
+            &self.write_mutex as *const _ as usize,
+        ]
+    }
+}
+
 impl<T> Drop for HalfLock<T> {
     fn drop(&mut self) {
         // During drop we are sure there are no other borrows of the data so we are free to just
@@ -226,6 +267,8 @@ impl<T> Drop for HalfLock<T> {
         unsafe {
             // Acquire should be enough.
             let data = Box::from_raw(self.data.load(Ordering::SeqCst));
+            #[cfg(sighook_verif)]
+            verif::event("hl_fini", &*data as *const T as usize, 0);
             drop(data);
         }
     }
